@@ -26,6 +26,7 @@ from hsverif.coq import Ctor, Raw, SomeV, term
 from hsverif.family import Family, merge_stats, run_family
 
 IMPORTS = "From HS Require Import Base.Prelude C19.Model."
+IMPORTS_S = "From HS Require Import Base.Prelude C19.Model C19.StreamModel."
 IMPORTS_T = "From HS Require Import Base.Prelude C19.Model C19.TopicModel."
 LEVEL = "proof"
 UNIT_NS = 15_625_000          # 1/64 s: every scripted delay is a multiple (exact in binary floating point)
@@ -689,6 +690,297 @@ def oracle_topic(c, obs):
 
 TOPIC_CASE = "option Z * list (top * list tout * tsnap)"
 
+
+# =========================================================================== EventLog + ConsumerGroup
+STRATS = ["range", "roundrobin", "sticky"]
+
+
+def gen_stream(rng):
+    nparts = rng.choice([1, 2, 3, 4, 4, 6, 8])
+    ncons = rng.randint(1, 5)
+    nkeys = rng.randint(1, 6)
+    ret = rng.choice([["none", 0], ["none", 0], ["size", rng.randint(1, 4)], ["time", rng.choice([2, 4, 8, 16])]])
+    script = []
+    t = 0
+    for _ in range(rng.randint(3, 30)):
+        t += rng.choice([0, 0, 1, 1, 2, 4, 9])
+        k = rng.random()
+        c = rng.randrange(ncons)
+        if k < 0.33:
+            script.append([t, "append", rng.randrange(nkeys)])
+        elif k < 0.40:
+            script.append([t, "read", rng.randint(-1, nparts), rng.randint(0, 5), rng.choice([0, 1, 2, 3, 100])])
+        elif k < 0.56:
+            script.append([t, "join", c])
+        elif k < 0.66:
+            script.append([t, "leave", c])
+        elif k < 0.84:
+            script.append([t, "poll", c, rng.choice([1, 2, 3, 100])])
+        else:
+            mode = rng.choice(["advance", "advance", "advance", "arbitrary"])
+            script.append([t, "commit", c, mode, [[rng.randrange(nparts), rng.randint(0, 6)] for _ in range(rng.randint(1, 2))]])
+    return dict(nparts=nparts, ncons=ncons, nkeys=nkeys, ret=ret, strat=rng.choice(STRATS), script=script,
+                rebalance=rng.choice([0, 1, 2, 4]), interval=rng.choice([2, 4, 8]))
+
+
+def _digest(key):
+    import hashlib
+    return int(hashlib.md5(key.encode()).hexdigest(), 16)
+
+
+def impl_stream(c):
+    logging.disable(logging.CRITICAL)
+    from happysimulator.components.streaming.consumer_group import (ConsumerGroup, RangeAssignment,
+                                                                      RoundRobinAssignment, StickyAssignment)
+    from happysimulator.components.streaming.event_log import EventLog, SizeRetention, TimeRetention
+    from happysimulator.core.entity import Entity
+    from happysimulator.core.event import Event
+    from happysimulator.core.simulation import Simulation
+    from happysimulator.core.temporal import Instant
+
+    kind, arg = c["ret"]
+    pol = None if kind == "none" else SizeRetention(arg) if kind == "size" else TimeRetention(arg * UNIT_S)
+    log = EventLog("log", num_partitions=c["nparts"], retention_policy=pol, append_latency=UNIT_S, read_latency=UNIT_S,
+                   retention_check_interval=c["interval"] * UNIT_S)
+    strat = {"range": RangeAssignment, "roundrobin": RoundRobinAssignment, "sticky": StickyAssignment}[c["strat"]]()
+    grp = ConsumerGroup("grp", log, assignment_strategy=strat, rebalance_delay=c["rebalance"] * UNIT_S, poll_latency=UNIT_S)
+    cname = lambda i: f"c{i}"
+    cidx = lambda n: int(n[1:])
+    kname = lambda i: f"k{i}"
+    trace = []
+    st = {"in_group": False}
+
+    def now():
+        return log._clock.now.nanoseconds if log._clock else 0
+
+    def recv(r):
+        return [r.offset, int(r.key[1:]), int(round(r.timestamp * 1e9)), r.partition]
+
+    def snap():
+        ls, gs = log.stats, grp.stats
+        prev = getattr(strat, "_previous", {})
+        return dict(parts=[[[r.offset for r in p.records], p.high_watermark] for p in log._partitions],
+                    lctr=[ls.records_appended, ls.records_read, ls.records_expired],
+                    perpart=[ls.per_partition_appends[i] for i in range(c["nparts"])],
+                    cons=sorted(cidx(n) for n in grp._consumers),
+                    assign=sorted([cidx(n), list(v)] for n, v in grp._assignments.items()),
+                    commit=sorted([cidx(n), sorted([p, o] for p, o in d.items())] for n, d in grp._committed_offsets.items()),
+                    prev=sorted([cidx(n), list(v)] for n, v in prev.items()),
+                    gctr=[grp.generation, gs.joins, gs.leaves, gs.rebalances, gs.polls, gs.commits, gs.records_polled])
+
+    def rec(op, out):
+        trace.append(dict(op=op, out=out, snap=snap(), t=now()))
+
+    o_app, o_read, o_ret, o_handle = log._do_append, log._do_read, log._apply_retention, grp.handle_event
+
+    def do_append(key, value):
+        r = o_app(key, value)
+        rec(["LAppend", int(key[1:]), now()], ["SRec", recv(r)])
+        return r
+
+    def do_read(pid, offset, maxr):
+        rs = o_read(pid, offset, maxr)
+        if not st["in_group"]:
+            rec(["LRead", pid, offset, maxr], ["SRecs", [recv(r) for r in rs]])
+        return rs
+
+    def apply_retention():
+        n = o_ret()
+        rec(["LRetain", now()], ["SNothing"])
+        return n
+
+    def handle_event(event):
+        et = event.event_type
+        ctx = event.context
+        cn = ctx.get("consumer_name")
+        ci = cidx(cn) if cn else -1
+        rf = ctx.get("reply_future")
+        inner = o_handle(event)
+        phase = 0
+        sent = None
+        while True:
+            st["in_group"] = True
+            try:
+                y = inner.send(sent) if phase else next(inner)
+                done = False
+            except StopIteration as e:
+                done, ret = True, e.value
+            st["in_group"] = False
+            if et == "Join":
+                if phase == 0 and not done:
+                    rec(["GJoinBegin", ci], ["SNothing"])
+                elif done:
+                    rec(["GJoinEnd", ci], ["SAssigned", list(rf._value) if rf is not None else list(grp._assignments.get(cn, []))])
+            elif et == "Leave":
+                if phase == 0 and not done:
+                    rec(["GLeaveBegin", ci], ["SNothing"])
+                elif done:
+                    rec(["GLeaveEnd"], ["SNothing"])
+            elif et == "Poll" and done:
+                rec(["GPoll", ci, ctx.get("max_records", 100)], ["SRecs", [recv(r) for r in rf._value]])
+            elif et == "Commit" and done:
+                rec(["GCommit", ci, sorted([p, o] for p, o in ctx.get("offsets", {}).items())], ["SNothing"])
+            if done:
+                return ret
+            phase += 1
+            sent = yield y
+
+    log._do_append, log._do_read, log._apply_retention, grp.handle_event = do_append, do_read, apply_retention, handle_event
+
+    polled = []
+
+    class Driver(Entity):
+        def handle_event(self, ev):
+            a = ev.context["a"]
+            k = a[1]
+            if k == "append":
+                yield from log.append(kname(a[2]), a[0])
+            elif k == "read":
+                yield from log.read(a[2], a[3], a[4])
+            elif k == "join":
+                yield from grp.join(cname(a[2]), self)
+            elif k == "leave":
+                yield from grp.leave(cname(a[2]))
+            elif k == "poll":
+                rs = yield from grp.poll(cname(a[2]), a[3])
+                polled.append([a[2], [recv(r) for r in rs]])
+            elif k == "commit":
+                if a[3] == "advance":
+                    cur = grp._committed_offsets.get(cname(a[2]), {})
+                    offs = {p: cur.get(p, 0) + o for p, o in a[4]}
+                else:
+                    offs = {p: o for p, o in a[4]}
+                yield from grp.commit(cname(a[2]), offs)
+            return []
+
+    drv = Driver("drv")
+    end = (c["script"][-1][0] if c["script"] else 0) + 24
+    sim = Simulation(entities=[log, grp, drv], end_time=Instant(end * UNIT_NS))
+    for a in c["script"]:
+        sim.schedule(Event(time=Instant(a[0] * UNIT_NS), event_type="act", target=drv, context={"a": a}))
+    sim.run()
+    return dict(trace=trace, polled=polled, digests=[[i, _digest(kname(i))] for i in range(c["nkeys"])])
+
+
+def _sop(op):
+    if op[0] == "GCommit":
+        return Ctor("GCommit", op[1], [tuple(x) for x in op[2]])
+    return Ctor(op[0], *op[1:]) if len(op) > 1 else Ctor(op[0])
+
+
+def _sout(o):
+    if o[0] == "SRec":
+        return Ctor("SRec", tuple(o[1]))
+    if o[0] == "SRecs":
+        return Ctor("SRecs", [tuple(r) for r in o[1]])
+    if o[0] == "SAssigned":
+        return Ctor("SAssigned", o[1])
+    return Ctor("SNothing")
+
+
+def encode_stream(c, obs):
+    kind, arg = c["ret"]
+    rk = {"none": 0, "size": 1, "time": 2}[kind]
+    ra = arg * UNIT_NS if kind == "time" else arg
+    tr = []
+    for e in obs["trace"]:
+        s = e["snap"]
+        v = ([(p[0], p[1]) for p in s["parts"]], s["lctr"], s["perpart"], s["cons"], [(a[0], a[1]) for a in s["assign"]],
+             [(x[0], [tuple(po) for po in x[1]]) for x in s["commit"]], [(a[0], a[1]) for a in s["prev"]], s["gctr"])
+        tr.append((_sop(e["op"]), _sout(e["out"]), v))
+    from hsverif.coq import Nat
+    return term(((Nat(c["nparts"]), (rk, ra), STRATS.index(c["strat"]), [tuple(d) for d in obs["digests"]]), tr))
+
+
+def oracle_stream(c, obs):
+    fails = []
+    tr = obs["trace"]
+    n = c["nparts"]
+    # offsets within a partition are gap-free and increasing; the high watermark never decreases
+    hw_prev = [0] * n
+    for k, e in enumerate(tr):
+        for pid, (offs, hw) in enumerate(e["snap"]["parts"]):
+            if offs != list(range(hw - len(offs), hw)) or hw < hw_prev[pid] or hw - len(offs) < 0:
+                fails.append(dict(clause="log: offsets within a partition are gap-free and increasing", step=k, partition=pid,
+                                  offsets=offs, high_watermark=hw))
+                break
+            hw_prev[pid] = hw
+        if fails:
+            break
+    # a key always maps to the same partition (and the record is stored there, at the watermark)
+    keypart = {}
+    prev = None
+    for k, e in enumerate(tr):
+        if e["op"][0] == "LAppend":
+            off, key, ts, pid = e["out"][1]
+            if keypart.setdefault(key, pid) != pid or not (0 <= pid < n):
+                fails.append(dict(clause="log: a key always maps to the same partition", key=key, partitions=[keypart[key], pid]))
+                break
+            before = prev["parts"][pid][1] if prev is not None else 0
+            if off != before or e["snap"]["parts"][pid][0][-1:] != [off] or ts != e["t"]:
+                fails.append(dict(clause="log: an appended record gets the next offset of its partition", step=k, record=e["out"][1]))
+                break
+        prev = e["snap"]
+    # after every rebalance each partition belongs to exactly one member
+    for k, e in enumerate(tr):
+        if e["op"][0] in ("GJoinEnd", "GLeaveEnd"):
+            s = e["snap"]
+            owners = {}
+            for name, pids in s["assign"]:
+                for p in pids:
+                    owners.setdefault(p, []).append(name)
+            bad = [p for p in range(n) if len(owners.get(p, [])) != 1] if s["cons"] else []
+            stray = [p for p in owners if not (0 <= p < n)] + [nm for nm, _ in s["assign"] if nm not in s["cons"]]
+            if bad or stray:
+                fails.append(dict(clause="group: after every rebalance each partition belongs to exactly one member", step=k,
+                                  strategy=c["strat"], members=s["cons"], assignments=s["assign"]))
+                break
+    # committed offsets never move backwards
+    prev = None
+    for k, e in enumerate(tr):
+        cur = {(nm, p): o for nm, d in e["snap"]["commit"] for p, o in d}
+        if prev is not None:
+            for key, o in prev.items():
+                if cur.get(key, -1) < o:
+                    given = dict((p, off) for p, off in e["op"][2]) if e["op"][0] == "GCommit" else {}
+                    by_commit = e["op"][0] == "GCommit" and e["op"][1] == key[0] and given.get(key[1]) == cur.get(key)
+                    fails.append(dict(clause="group: committed offsets never move backwards",
+                                      mechanism="commit-with-lower-offset" if by_commit else "offset-lost",
+                                      consumer=key[0], partition=key[1], before=o, after=cur.get(key), step=k,
+                                      what="ConsumerGroup Commit stores whatever offset it is given: a commit with a lower offset moves the committed offset backwards"))
+                    break
+            if fails and fails[-1]["clause"].startswith("group: committed"):
+                break
+        prev = cur
+    # polled records: from assigned partitions, from the committed offset on, in offset order, bounded
+    prev = None
+    for k, e in enumerate(tr):
+        if e["op"][0] == "GPoll" and prev is not None:
+            ci, maxr = e["op"][1], e["op"][2]
+            assigned = dict((nm, p) for nm, p in prev["assign"]).get(ci, [])
+            committed = dict((nm, dict((p, o) for p, o in d)) for nm, d in prev["commit"]).get(ci, {})
+            recs = e["out"][1]
+            byp = {}
+            for r in recs:
+                byp.setdefault(r[3], []).append(r[0])
+            ok = all(p in assigned for p in byp) and all(v == sorted(v) and len(set(v)) == len(v) and v[0] >= committed.get(p, 0)
+                                                         for p, v in byp.items())
+            if not ok or len(recs) > max(maxr, 1):
+                fails.append(dict(clause="group: poll returns records of assigned partitions in offset order from the committed offset",
+                                  step=k, consumer=ci, assigned=assigned, committed=committed, records=recs))
+                break
+        prev = e["snap"]
+    return fails[:4]
+
+
+def attribute_stream(c, obs, f):
+    if f.get("mechanism") == "commit-with-lower-offset":
+        return "C19-commit-moves-backwards"
+    return None
+
+
+STREAM_CASE = "(nat * (Z * Z) * Z * list (Z * Z)) * list (sop * sout * ssnap)"
+
 MQ_CASE = "mqcfg * list (op * list out * dsnap)"
 
 FAMILIES = [
@@ -697,6 +989,9 @@ FAMILIES = [
     Family("topic", IMPORTS_T, "ok_topic", TOPIC_CASE, gen_topic, impl_topic, encode_topic, oracle_topic,
            lambda c, o: any(e["op"][0] == "TPublishResume" for e in o["trace"]), parallel=False,
            describe=lambda c: f"subs={c['nsub']},lat={c['latency']}"),
+    Family("stream", IMPORTS_S, "ok_stream", STREAM_CASE, gen_stream, impl_stream, encode_stream, oracle_stream,
+           lambda c, o: any(e["op"][0] in ("GJoinEnd", "GLeaveEnd") for e in o["trace"]) and any(e["op"][0] == "LAppend" for e in o["trace"]),
+           attribute_stream, parallel=False, describe=lambda c: f"{c['strat']},parts={c['nparts']},ret={c['ret'][0]}"),
 ]
 
 TRUSTED = [
@@ -709,10 +1004,11 @@ TRUSTED = [
 
 
 def run(ctx):
-    ctx.prove(["C19/Model.v", "C19/MQ.v", "C19/MQOrder.v", "C19/TopicModel.v", "C19/Topic.v", "C19/Props.v"], allowed_axioms=(), trusted_base=TRUSTED)
+    ctx.prove(["C19/Model.v", "C19/MQ.v", "C19/MQOrder.v", "C19/TopicModel.v", "C19/Topic.v",
+               "C19/StreamModel.v", "C19/Assign.v", "C19/Stream.v", "C19/Props.v"], allowed_axioms=(), trusted_base=TRUSTED)
     ctx.coq_cases = lambda tag, imports, ok_fn, case_type, cases: coq.eval_cases(
-        f"{ctx.pid}_{tag}", imports, ok_fn, case_type, cases, shard=max(10, len(cases) // 12 + 1), workers=12)
-    counts = {"mq": ctx.n(160, 4000), "topic": ctx.n(120, 3000)}
+        f"{ctx.pid}_{tag}", imports, ok_fn, case_type, cases, shard=max(30, len(cases) // 10 + 1), workers=10)
+    counts = {"mq": ctx.n(90, 3000), "topic": ctx.n(60, 2000), "stream": ctx.n(90, 3000)}
     stats = [run_family(ctx, fam, counts[fam.name]) for fam in FAMILIES]
     merge_stats(ctx, stats, "scripted scenarios in a real Simulation; non-trivial = at least one completed delivery and one ack/reject/timeout; distinct by JSON of the input")
     ctx.finish_obligations()
